@@ -21,6 +21,7 @@ package e2e
 import (
 	"errors"
 	"fmt"
+	"runtime"
 	"testing"
 	"time"
 
@@ -54,6 +55,13 @@ func expand15(t *testing.T, seed uint64, tier string) []*core.Plan {
 				// packet id counters start near the 16-bit wrap in some runs
 				p.SetKnob("ppersist", 1)
 				p.SetKnob("idstart", r.Pick(1, 65533, 65534, 65535))
+				// in half of these runs the application publishes its next message
+				// from a goroutine of its own while the resumed client is still busy
+				// with the CONNACK (drawn from a stream of its own: the plans stay
+				// what they were)
+				if core.NewRand(core.Derive(seed, "ppoll")).Chance(1, 2) {
+					p.SetKnob("ppoll", 1)
+				}
 				np := p.Knob("pubs", 1)
 				var items []core.Item
 				off := map[int]bool{}
@@ -171,6 +179,22 @@ func genE2E(seed uint64, prop string) *core.Plan {
 	return p
 }
 
+// hookSession tells the harness when the client reads the packets to retransmit
+// (client.processConnack): the moment at which an application goroutine that
+// keeps trying to publish competes with the retransmissions.
+type hookSession struct {
+	*session.MemorySession
+	onAll func()
+}
+
+func (h *hookSession) AllPackets(d session.Direction) ([]packet.Generic, error) {
+	l, err := h.MemorySession.AllPackets(d)
+	if d == session.Outgoing && h.onAll != nil {
+		h.onAll()
+	}
+	return l, err
+}
+
 type dialer struct {
 	w        *brk.World
 	last     *brk.RawLink
@@ -286,10 +310,14 @@ func runE2E(t *testing.T, p *core.Plan) *core.Result {
 				go func() { _ = c.Close() }()
 			}
 		}
+		var onResend func(s *party, c *client.Client)
 		connect := func(s *party) {
 			c := client.New()
 			if s.sess != nil {
 				c.Session = s.sess
+				if onResend != nil && s.conns > 0 {
+					c.Session = &hookSession{MemorySession: s.sess, onAll: func() { onResend(s, c) }}
+				}
 			}
 			s.conns++
 			cn := s.conns
@@ -347,6 +375,40 @@ func runE2E(t *testing.T, p *core.Plan) *core.Result {
 		}
 		w.Settle()
 		next := 0
+		consumed := map[int]bool{}
+		if p.Knob("ppoll", 0) == 1 {
+			onResend = func(q *party, c *client.Client) {
+				if pubs[q.slot] != q {
+					return
+				}
+				// the publisher's next message, taken out of the plan
+				idx := -1
+				for i := next; i < len(p.Items); i++ {
+					if it := p.Items[i]; it.K == "pub" && it.P == q.slot && !consumed[i] {
+						idx = i
+						break
+					}
+				}
+				if idx < 0 {
+					return
+				}
+				consumed[idx] = true
+				it := p.Items[idx]
+				pubQoS[it.D] = it.A
+				res.Count("publishes_during_connack", 1)
+				go func() {
+					for i := 0; i < 24; i++ {
+						f, err := c.Publish(topics[it.B%2], brk.MsgPayload(it.D, 0), packet.QOS(it.A), false)
+						if err == nil {
+							pfs = append(pfs, pf{it.D, f})
+							res.Count("publishes_during_connack_admitted", 1)
+							return
+						}
+						runtime.Gosched()
+					}
+				}()
+			}
+		}
 		for next < len(p.Items) && p.Items[next].K == "sub" {
 			it := p.Items[next]
 			next++
@@ -389,6 +451,9 @@ func runE2E(t *testing.T, p *core.Plan) *core.Result {
 				next++
 				switch it.K {
 				case "pub":
+					if consumed[next-1] {
+						break // published by the application goroutine during the CONNACK
+					}
 					pubQoS[it.D] = it.A
 					if q := pubs[it.P]; q.cur != nil {
 						f, err := q.cur.Publish(topics[it.B%2], brk.MsgPayload(it.D, 0), packet.QOS(it.A), false)
